@@ -619,7 +619,7 @@ impl<'a> Constraint<'a> {
                         querystring = &remainder[3..];
                         continue;
                     } else if remainder.starts_with("]") {
-                        querystring = &remainder[1..];
+                        querystring = remainder[1..].trim_start();
                         break;
                     } else if remainder.is_empty() {
                         querystring = remainder;
@@ -1482,6 +1482,8 @@ impl<'a> Query<'a> {
     ) -> Result<(Vec<Self>, &'a str), StamError> {
         let mut subqueries = Vec::new();
         if querystring.trim_start().chars().nth(0) == Some('{') {
+            //(the first byte is stripped below, it must be the { itself and not whitespace before it)
+            querystring = querystring.trim_start();
             loop {
                 querystring = &querystring[1..].trim_start(); //strips the { or | and any spaces
                 let (attributes, remainder) = Self::parse_attributes(querystring)?;
